@@ -558,14 +558,15 @@ def index_value(eng, o, i, st, fr, k):
             raise EngineError("list index of non-int")
         n = eng.list_len(st, o)
         it = as_int(i)
+        if st.spec:
+            # specification indexing is mathematical: xs[i] is the i-th element, no wrap-around
+            return k(st, eng.list_get(st, o, it))
         j = z3.simplify(norm_index(it, n))
         ok = z3.And(j >= 0, j < n)
         def good(s):
             v = eng.list_get(s, o, j)
             eng.assume_wellformed(s, v)
             return k(s, v)
-        if st.spec:
-            return good(st)
         return eng.branch(st, ok, good, lambda s: eng.raise_new(s, "IndexError"), "index")
     if isinstance(o, SRef) and o.kind.startswith("dict:"):
         kk, vk = dict_kinds(o.kind)
@@ -1092,7 +1093,39 @@ def _as_ref(eng, e, st, fr, k):
     return eng.ev(e.args[0], st, fr, got)
 
 
-SPECIAL_FORMS = {"forall": _quant("forall"), "exists": _quant("exists"), "implies": _implies, "old": _old,
+def _joined(eng, e, st, fr, k):
+    """joined(xs): the ghost value "".join(xs) of a list of str"""
+    return eng.ev(e.args[0], st, fr, lambda s, v: k(s, SStr(eng.list_joined(s, v))))
+
+
+def _truthy(eng, e, st, fr, k):
+    return eng.ev(e.args[0], st, fr, lambda s, v: k(s, SBool(eng.truth(s, v))))
+
+
+def _isint(eng, e, st, fr, k):
+    """isint(x): x is an int and not a bool"""
+    return eng.ev(e.args[0], st, fr, lambda s, v: k(s, SBool(PyVal.is_IntV(v.t) if isinstance(v, SDyn) else z3.BoolVal(isinstance(v, SInt)))))
+
+
+def _isnone(eng, e, st, fr, k):
+    return eng.ev(e.args[0], st, fr, lambda s, v: k(s, SBool(eng.identical(s, v, SNone()))))
+
+
+def _dict_key_at(eng, e, st, fr, k):
+    def got(s, d):
+        def got_j(s2, j):
+            kk, vk = dict_kinds(d.kind)
+            return k(s2, from_sort(kk, z3.Select(dict_parts(eng, s2, d)[5], j.t)))
+        return eng.ev(e.args[1], s, fr, got_j)
+    return eng.ev(e.args[0], st, fr, got)
+
+
+def _str_of(eng, e, st, fr, k):
+    return eng.ev(e.args[0], st, fr, lambda s, v: k(s, SStr(format_value(eng, s, v))))
+
+
+SPECIAL_FORMS = {"joined": _joined, "truthy": _truthy, "isint": _isint, "isnone": _isnone,
+                 "dict_key_at": _dict_key_at, "str_of": _str_of, "forall": _quant("forall"), "exists": _quant("exists"), "implies": _implies, "old": _old,
                  "fresh": _fresh, "allocated": _allocated, "unchanged": _unchanged, "isstr": _isstr,
                  "sval": _sval, "ival": _ival, "cls_is": _cls_is, "same": _same_obj, "as_ref": _as_ref}
 SPECIAL_ALWAYS = set()
